@@ -452,8 +452,11 @@ fn run_shard(ctx: &mut Ctx) {
         let plain = Layout::new(vec![]);
         let src = print_program(&full, if i % 2 == 0 { &layout } else { &plain });
         let o = grid[(fnv(&seed.to_le_bytes()) % grid.len() as u64) as usize];
-        let case = json!({"kind": "format", "src": src, "options": opts_json(&o), "runnable": true});
-        ctx.run_case(&case, || check_format(&src, o, true).class("generated"));
+        // only programs that the reference interpreter judges are run for the behaviour clause: the
+        // others include exponential container growth (resource exhaustion, not a formatter matter)
+        let runnable = crate::model::run_program(&full, true).result.is_some();
+        let case = json!({"kind": "format", "src": src, "options": opts_json(&o), "runnable": runnable});
+        ctx.run_case(&case, || check_format(&src, o, runnable).class("generated"));
     }
 }
 
